@@ -144,13 +144,21 @@ func (ls locksim) runLocks(c *Case, ex *lockExtra, dir string, out *Outcome) {
 	os.Remove(path)
 	defer os.Remove(path)
 	cfg := c.Prog.Cfg
-	// create the file first (outside the scheduler)
-	db0, err := bolt.Open(path, 0600, &bolt.Options{PageSize: cfg.PageSize})
-	if err != nil {
-		out.HarnessErr = err.Error()
-		return
+	// create the file first (outside the scheduler) - except in a third of the runs, where the file does not exist
+	// yet and the openers race to create it: whoever gets the lock first initialises it, nobody else may
+	fresh := c.Run%3 == 2
+	if !fresh {
+		db0, err := bolt.Open(path, 0600, &bolt.Options{PageSize: cfg.PageSize})
+		if err != nil {
+			out.HarnessErr = err.Error()
+			return
+		}
+		_ = db0.Close()
+	} else {
+		out.probe("lock-arm-file-created-by-the-racing-openers", 1)
 	}
-	_ = db0.Close()
+	holds := 0           // read-write holders that completed their update
+	created := !fresh    // a read-write Open has returned successfully: the file is an initialised database
 	var schedTape *sim.Tape
 	if c.Tapes["sched"] != nil {
 		schedTape = sim.ReplayTape("sched", c.Tapes["sched"])
@@ -198,6 +206,7 @@ func (ls locksim) runLocks(c *Case, ex *lockExtra, dir string, out *Outcome) {
 					}
 				}
 				pend[ti] = p
+				createdAtInvoke := created
 				t0 := time.Now()
 				db, err := bolt.Open(path, 0600, &bolt.Options{ReadOnly: st.RO, Timeout: time.Duration(st.TimeoutMS) * time.Millisecond})
 				el := time.Since(t0)
@@ -208,6 +217,9 @@ func (ls locksim) runLocks(c *Case, ex *lockExtra, dir string, out *Outcome) {
 						fail("lock-not-exclusive", "Open(readOnly=%v) succeeded while %d other handle(s) with a conflicting mode are open", st.RO, len(open))
 					}
 					open[db] = &handle{ro: st.RO}
+					if !st.RO {
+						created = true
+					}
 					for _, q := range pend {
 						if !q.ro || !st.RO {
 							q.conflict = true
@@ -228,6 +240,12 @@ func (ls locksim) runLocks(c *Case, ex *lockExtra, dir string, out *Outcome) {
 					if el < time.Duration(st.TimeoutMS-50)*time.Millisecond {
 						fail("timeout-too-early", "Open(timeout %dms) gave up after %v", st.TimeoutMS, el)
 					}
+					continue
+				case fresh && st.RO && !createdAtInvoke:
+					// a read-only open cannot create the file, and one that meets the still empty file before its
+					// creator has initialised it fails one way or another (ENOENT, invalid database, EBADF from the
+					// refused initialisation): any error is fine, as long as it is an error
+					out.probe("read-only-open-before-creation", 1)
 					continue
 				default:
 					fail("open-error", "Open(readOnly=%v): %v", st.RO, err)
@@ -250,6 +268,8 @@ func (ls locksim) runLocks(c *Case, ex *lockExtra, dir string, out *Outcome) {
 						return err
 					}); err != nil {
 						fail("update-error", "Update by the lock holder: %v", err)
+					} else {
+						holds++
 					}
 				}
 				cerr := db.Close()
@@ -273,11 +293,31 @@ func (ls locksim) runLocks(c *Case, ex *lockExtra, dir string, out *Outcome) {
 	if s.Deadlock != "" || s.Stuck {
 		fail("open-never-returns", "an Open/Close never returned: %s", s.Deadlock)
 		s.Abort()
+	} else if len(viol) == 0 && holds > 0 {
+		// every read-write holder advanced one counter under the lock: nothing of that may be lost (two holders at
+		// once, or a late opener re-initialising a file somebody else created, would lose increments)
+		sim.Uninstall()
+		if dbf, err := bolt.Open(path, 0600, &bolt.Options{ReadOnly: true}); err != nil {
+			fail("final-open", "Open after all handles were closed: %v", err)
+		} else {
+			var seq uint64
+			_ = dbf.View(func(tx *bolt.Tx) error {
+				if b := tx.Bucket([]byte("locks")); b != nil {
+					seq = b.Sequence()
+				}
+				return nil
+			})
+			_ = dbf.Close()
+			if seq != uint64(holds) {
+				fail("updates-lost-under-the-lock", "%d read-write holders each advanced the counter once under the file lock, the file says %d", holds, seq)
+			}
+			out.probe("lock-arm-counter-checked", 1)
+		}
 	}
 	out.Viol = viol
 	out.Evals = 1
 	out.Distinct = append(out.Distinct, s.Fingerprint())
-	out.Sample = map[string]any{"run": c.Run, "arm": "locks", "tasks": ex.Tasks, "decisions": s.Decisions}
+	out.Sample = map[string]any{"run": c.Run, "arm": "locks", "tasks": ex.Tasks, "decisions": s.Decisions, "fresh_file": fresh}
 }
 
 func fileHash(path string) [32]byte {
